@@ -62,6 +62,7 @@ def c16(ctx):
     quick = ctx.tier == "quick"
     bad = []
     like_obs = []   # (tuple tree, real has_like_terms) for the model comparison
+    sub_obs = []    # (tuple tree, encoded real get_sub_terms, text)
     n_eval = 0
     nontrivial = 0
     coefs = [None, F(1), F(2), F(4), F(12), F(-1), F(-3), F(1, 2), F(5, 2), F(-7, 4), F(0), F(100)]
@@ -195,6 +196,20 @@ def c16(ctx):
         hl = call(UT.has_like_terms, core.parse_fresh(text))
         if hl[0] == "ok":
             like_obs.append((reach, bool(hl[1]), text))
+        # get_sub_terms against the model: which node objects (by in-order position) end up as
+        # coefficient / variable / exponent of each sub-term, `False`, or a failed assertion
+        n2 = core.parse_fresh(text)
+        tg = core.tag_map(n2)
+        st = call(UT.get_sub_terms, n2)
+        try:
+            if st[0] == "ok":
+                enc = "false" if st[1] is False else "terms " + ";".join(
+                    ",".join(str(tg[id(x)]) if x is not None else "0" for x in tr) for tr in st[1])
+            else:
+                enc = "raised" if st[1] == "AssertionError" else "exc:" + str(st[1])
+            sub_obs.append((core.to_tuple(n2, tg), enc, text))
+        except (core.Unmodelled, KeyError):
+            pass
         terms = call(UT.get_terms, node)
         if terms[0] == "ok":
             ts = terms[1][:5]
@@ -238,6 +253,7 @@ def c16(ctx):
         k = b.get("clause") + (":" + b.get("function", "") if b.get("function") else "")
         ctx.notes["problem_kinds"][k] = ctx.notes["problem_kinds"].get(k, 0) + 1
     ctx.like_obs = like_obs
+    ctx.sub_obs = sub_obs
     ctx.sample({"term text": "4x^2", "triple": "(4, x, 2)"})
     ctx.sample({"sum": "2x + 7 + y^2 + 5x (all permutations and groupings)"})
     return uniq
@@ -266,9 +282,14 @@ def run(ctx):
     obs = ctx.like_obs
     ans = drv.ask([f"like {core.tuple_to_wire(t)}" for t, _, _ in obs])
     diffs = [{"text": txt, "impl": r, "model": a} for (t, r, txt), a in zip(obs, ans) if (a == "true") != r]
+    sobs = ctx.sub_obs
+    sans = drv.ask([f"subterms {core.tuple_to_wire(t)}" for t, _, _ in sobs])
+    sdiffs = [{"text": txt, "impl": r, "model": a.strip()} for (t, r, txt), a in zip(sobs, sans) if a.strip() != r.strip()]
+    ctx.notes["get_sub_terms_compared_with_model"] = len(sobs)
+    ctx.coverage["traces_validated_against_impl"] += len(sobs)
     ctx.coverage["traces_validated_against_impl"] += len(obs)
     ctx.notes["has_like_terms_compared_with_model"] = len(obs)
-    finish(ctx, [("terms", unlisted)], [("has_like_terms", diffs)],
+    finish(ctx, [("terms", unlisted)], [("has_like_terms", diffs), ("get_sub_terms", sdiffs)],
            "term analysis is order-invariant and inverse to term construction")
 
 
